@@ -135,6 +135,17 @@ class Containers:
                     res = worse(res, (UNKNOWN, f"appended element {norm(arg) if arg is not None else None} is not the loop item"))
         if not found:
             return (FAITHFUL, f"{name} stays empty")
+        # the list may only grow: removing collected bindings again (row-boundary cuts etc.) loses values the
+        # walk relies on (every column before the marker must keep what it received)
+        for n in own_nodes(fn.node):
+            if isinstance(n, ast.Delete):
+                for tgt in n.targets:
+                    if isinstance(tgt, ast.Subscript) and norm(tgt.value) == name:
+                        res = worse(res, (FILTERED, f"`{norm(n)}` removes bindings that were already collected"))
+            if isinstance(n, ast.Call) and isinstance(n.func, ast.Attribute) and norm(n.func.value) == name and n.func.attr in ("pop", "remove", "clear"):
+                res = worse(res, (FILTERED, f"`{norm(n)[:40]}` removes bindings that were already collected"))
+            if isinstance(n, ast.Assign) and any(isinstance(t, ast.Subscript) and norm(t.value) == name and isinstance(t.slice, ast.Slice) for t in n.targets):
+                res = worse(res, (FILTERED, f"`{norm(n)[:40]}` overwrites collected bindings"))
         return res
 
     def tuple_element(self, fn: FuncInfo, value: ast.AST, idx: int, depth: int) -> Tuple[str, str]:
@@ -176,6 +187,7 @@ def run(ctx: Ctx, rep: Report) -> None:
     rep.rule("C02-R2", "GETBULK responses are refused iff they hold more than N + M*R bindings (RFC 3416)", floor=30)
     rep.rule("C02-R3", "non-repeaters / max-repetitions sent agree with the OID lists, the response split and the caller's bulk size", floor=4)
     rep.rule("C02-R4", "the endOfMibView cut-off is a suffix cut", floor=1)
+    rep.rule("C02-R5", "the walk loop shared with the GETNEXT walk satisfies C01 R1-R8 (filter, delivery, regrouping, sortedness, continuation, markers, order)", floor=30)
     rep.assumptions += [
         "C01's rules hold for the shared loop (checked by the C01 command; the bulk fetcher is included in its fetcher set)",
         "conformant agents may repeat an OID inside one GETBULK response when adjacent subtrees run into each other",
@@ -226,7 +238,30 @@ def run(ctx: Ctx, rep: Report) -> None:
             key=f"{f.key}|container-{kind}",
         )
 
-    # ---------------------------------------------------------------- R2 / R3
+    check_bulk_builder(ctx, rep, wm, "C02-R2", "C02-R3")
+
+    # ---------------------------------------------------------------- R5: the shared loop (C01 R1-R8 with the bulk fetcher in the fetcher set)
+    from . import c01
+
+    sub = Report(rep.prop, rep.tier)
+    c01.check_filter(ctx, sub, wm)
+    c01.check_loop(ctx, sub, wm)
+    c01.check_group(ctx, sub, wm)
+    c01.check_sorted(ctx, sub, wm, "C01-R5")
+    c01.check_unfinished(ctx, sub, wm)
+    c01.check_markers(ctx, sub, wm)
+    c01.check_order(ctx, sub, wm)
+    rep.adopt(sub, "C02-R5")
+
+    # ---------------------------------------------------------------- R4
+    cuts = wm.truncation(wm.bulk_fetcher)
+    kinds = sorted({k for _, _, k in cuts})
+    rep.check(bool(cuts) and all(k in ("break", "return") for k in kinds), "C02-R4", wm.bulk_fetcher.site(), "at an endOfMibView binding the result loop is left (suffix cut); bindings are never skipped individually", f"cut kinds: {kinds}", key=f"{wm.bulk_fetcher.key}|marker-continue")
+
+
+def check_bulk_builder(ctx: Ctx, rep: Report, wm: WalkModel, r2: str, r3: str) -> None:
+    """GETBULK operation: size bound (r2) and request / response-split agreement (r3)."""
+    client = wm.client
     bulk_cls = ctx.u.cls("puresnmp.pdu:BulkGetRequest")
     builder = None
     for m in client.methods.values():
@@ -245,7 +280,7 @@ def run(ctx: Ctx, rep: Report) -> None:
     scalar_p, rep_p, max_p = bm.params[1], bm.params[2], bm.params[3]
     snmp_error = ctx.u.cls("puresnmp.exc:SnmpError")
     if nr_arg is None or mr_arg is None or star is None:
-        rep.undecided("C02-R2", bm.site(bcall), "GETBULK request arguments recognised", norm(bcall))
+        rep.undecided(r2, bm.site(bcall), "GETBULK request arguments recognised", norm(bcall))
         return
 
     def atoms_for(s: int, r: int, m: int, c: int):
@@ -268,6 +303,18 @@ def run(ctx: Ctx, rep: Report) -> None:
 
         return atom
 
+    star_exp0 = defs.expand(star)
+    concat = concat_kind(star_exp0, scalar_p, rep_p)
+    rep.check(
+        concat,
+        r3,
+        bm.site(bcall),
+        "the OIDs sent are the scalar OIDs followed by the repeating OIDs, each exactly as often and in the order the caller listed them",
+        f"oids = {norm(star_exp0)[:90]}",
+        key=f"{bm.key}|oid-list-not-faithful",
+    )
+    if concat is not True:
+        return
     grid_ok = True
     for s in range(0, 3):
         for r in range(0, 4):
@@ -278,7 +325,7 @@ def run(ctx: Ctx, rep: Report) -> None:
                     mr = int_eval(defs.expand(mr_arg), at0)
                     total = int_eval(ast.Call(ast.Name("len", ast.Load()), [defs.expand(star)], []), at0)
                 except Unevaluable as exc:
-                    rep.undecided("C02-R2", bm.site(bcall), "request arguments are evaluable", str(exc))
+                    rep.undecided(r2, bm.site(bcall), "request arguments are evaluable", str(exc))
                     return
                 n_ = min(nr, total)
                 r_ = max(total - n_, 0)
@@ -293,16 +340,16 @@ def run(ctx: Ctx, rep: Report) -> None:
                     else:
                         ok = bool(outs) and not refused
                         want = "accepted"
-                    rep.check(ok, "C02-R2", bm.site(), f"scalars={s} repeaters={r} max-repetitions={m}: a response with {c} binding(s) (bound {bound}) is {want}", f"{len(refused)}/{len(outs)} paths raise SnmpError", key=f"{bm.key}|size-bound")
+                    rep.check(ok, r2, bm.site(), f"scalars={s} repeaters={r} max-repetitions={m}: a response with {c} binding(s) (bound {bound}) is {want}", f"{len(refused)}/{len(outs)} paths raise SnmpError", key=f"{bm.key}|size-bound")
                     grid_ok = grid_ok and ok
                 # R3 on the same grid point
                 if nr != s or mr != m or total != s + r:
-                    rep.violated("C02-R3", bm.site(bcall), "non-repeaters == number of scalar OIDs, max-repetitions == the caller's value, all OIDs are sent", f"scalars={s} repeaters={r} max={m}: sent non_repeaters={nr} max_repetitions={mr} oids={total}", key=f"{bm.key}|request-counters")
+                    rep.violated(r3, bm.site(bcall), "non-repeaters == number of scalar OIDs, max-repetitions == the caller's value, all OIDs are sent", f"scalars={s} repeaters={r} max={m}: sent non_repeaters={nr} max_repetitions={mr} oids={total}", key=f"{bm.key}|request-counters")
                     grid_ok = False
-    rep.check(True, "C02-R3", bm.site(bcall), "non-repeaters sent == len(scalar OIDs); max-repetitions sent == max_list_size; every OID is sent (grid 3x4x4)", f"non_repeaters={norm(nr_arg)}, max_repeaters={norm(mr_arg)}, oids=*{norm(star)}")
+    rep.check(True, r3, bm.site(bcall), "non-repeaters sent == len(scalar OIDs); max-repetitions sent == max_list_size; every OID is sent (grid 3x4x4)", f"non_repeaters={norm(nr_arg)}, max_repeaters={norm(mr_arg)}, oids=*{norm(star)}")
     star_exp = defs.expand(star)
     order_ok = isinstance(star_exp, ast.BinOp) and isinstance(star_exp.op, ast.Add) and scalar_p in norm(star_exp.left) and rep_p in norm(star_exp.right) and rep_p not in norm(star_exp.left)
-    rep.check(order_ok, "C02-R3", bm.site(bcall), "scalar OIDs are sent before the repeating OIDs", f"oids = {norm(star_exp)}", key=f"{bm.key}|oid-order")
+    rep.check(order_ok, r3, bm.site(bcall), "scalar OIDs are sent before the repeating OIDs", f"oids = {norm(star_exp)}", key=f"{bm.key}|oid-order")
     # split of the response
     splits = []
     for n in own_nodes(bm.node):
@@ -322,7 +369,7 @@ def run(ctx: Ctx, rep: Report) -> None:
             if not (vals[0] == (0, s) and vals[1] == (s, None)):
                 ok_split = False
                 detail.append(f"scalars={s}: slices {vals}")
-    rep.check(ok_split, "C02-R3", bm.site(), "the response is split into [0:non-repeaters] (scalars) and [non-repeaters:] (repetitions)", f"{detail}", key=f"{bm.key}|response-split")
+    rep.check(ok_split, r3, bm.site(), "the response is split into [0:non-repeaters] (scalars) and [non-repeaters:] (repetitions)", f"{detail}", key=f"{bm.key}|response-split")
     # the bulk fetcher's own call
     f = wm.bulk_fetcher
     calls = [n for n in own_nodes(f.node) if isinstance(n, ast.Call) and any(isinstance(c, FuncInfo) and c.cls == client for c in ctx.r.callees(f, n))]
@@ -336,9 +383,28 @@ def run(ctx: Ctx, rep: Report) -> None:
         okf = isinstance(sc, ast.List) and not sc.elts and isinstance(rp, ast.Name) and rp.id == f.params[0] and isinstance(mx, ast.Name) and mx.id == factory_param
         detail = norm(calls[0])
         # if the fetcher calls the public bulkget, its arguments reach the builder unchanged (checked by name binding of bulkget)
-    rep.check(okf, "C02-R3", f.site(), "the bulk fetcher sends no scalars, its OID list as repeaters and the configured bulk size as max-repetitions", detail, key=f"{f.key}|fetcher-args")
+    rep.check(okf, r3, f.site(), "the bulk fetcher sends no scalars, its OID list as repeaters and the configured bulk size as max-repetitions", detail, key=f"{f.key}|fetcher-args")
 
-    # ---------------------------------------------------------------- R4
-    cuts = wm.truncation(wm.bulk_fetcher)
-    kinds = sorted({k for _, _, k in cuts})
-    rep.check(bool(cuts) and all(k in ("break", "return") for k in kinds), "C02-R4", wm.bulk_fetcher.site(), "at an endOfMibView binding the result loop is left (suffix cut); bindings are never skipped individually", f"cut kinds: {kinds}", key=f"{wm.bulk_fetcher.key}|marker-continue")
+
+
+def concat_kind(expr: ast.AST, scalar_p: str, rep_p: str) -> Optional[bool]:
+    """True: list(scalars) + list(repeaters) (or an equivalent faithful concatenation); False: a keyed / reordered / filtered derivation; None: unknown."""
+    txt = norm(expr)
+    if any(tok in txt for tok in ("dict.fromkeys", "set(", "sorted(", "frozenset(", "reversed(", " if ")):
+        return False
+
+    def faithful_of(e: ast.AST, name: str) -> bool:
+        e = strip_casts(e)
+        if isinstance(e, ast.Name):
+            return e.id == name
+        if isinstance(e, ast.Call) and isinstance(e.func, ast.Name) and e.func.id in ("list", "tuple") and len(e.args) == 1:
+            return faithful_of(e.args[0], name)
+        if isinstance(e, ast.BoolOp) and isinstance(e.op, ast.Or) and len(e.values) == 2 and isinstance(e.values[1], (ast.List, ast.Tuple)) and not e.values[1].elts:
+            return faithful_of(e.values[0], name)
+        return False
+
+    if isinstance(expr, ast.BinOp) and isinstance(expr.op, ast.Add):
+        return True if faithful_of(expr.left, scalar_p) and faithful_of(expr.right, rep_p) else (False if faithful_of(expr.left, rep_p) else None)
+    if isinstance(expr, (ast.List, ast.Tuple)) and len(expr.elts) == 2 and all(isinstance(e, ast.Starred) for e in expr.elts):
+        return True if faithful_of(expr.elts[0].value, scalar_p) and faithful_of(expr.elts[1].value, rep_p) else None
+    return None
